@@ -107,13 +107,14 @@ class BodyIndex:
 
 
 class Tracer:
-    def __init__(self, facts, max_depth=3, inline=None, no_inline=(), through_casts=False):
+    def __init__(self, facts, max_depth=3, inline=None, no_inline=(), through_casts=False, via=None):
         self.facts = facts
         self.max_depth = max_depth
         self._idx = {}
         self.no_inline = tuple(no_inline)
         self.inline = inline  # optional predicate(path) -> bool
         self.through_casts = through_casts
+        self.via = via or {}   # callee short name -> argument index: report ('via', name, origin-of-that-argument)
 
     def index(self, body):
         p = body["path"]
@@ -209,6 +210,10 @@ class Tracer:
                 return T(e["e"])
             return {("cast", e.get("from"), e.get("ty"), e.get("ln"))}
         if k == "Index":
+            from facts import lit as _lit
+            li = _lit(e["i"])
+            if li and li[0] == "int":
+                return T(e["e"], (("idx", li[1]),) + path)
             return T(e["e"], (("elem",),) + path)
         if k == "Array":
             if path and path[0][0] in ("idx", "elem"):
@@ -277,6 +282,10 @@ class Tracer:
                             or rest[0][0] == "elem"):
                 rest.pop(0)
             return self.trace(body, args[0], (("elem",),) + tuple(rest), depth, seen, ctx)
+        sn = short(cal)
+        if sn in self.via and self.via[sn] < len(args):
+            inner = self.trace(body, args[self.via[sn]], (), depth, seen, ctx)
+            return {("via", sn, o) for o in inner} or {("via", sn, ("other", "empty", e.get("ln")))}
         callee = self.facts.bodies.get(cal)
         can_inline = callee is not None and depth < self.max_depth and "thir" in callee \
             and not any(cal.endswith(x) for x in self.no_inline) \
